@@ -19,7 +19,9 @@ EXPLANATION = (
     "rules, and the only later push is ignore_previous_fp_documents(); (5) filters_used bookkeeping — each "
     "push of the original line is control-dependent on the Ok arm of that rule's conversion; (6) every "
     "hostname / pattern text that reaches a url-filter is escaped with the SPECIAL_CHARS regex, whose literal "
-    "covers the metacharacters outside Safari's subset."
+    "covers the metacharacters outside Safari's subset; (7) no emitted url-filter can be the empty string "
+    "(WebKit rejects a rule list containing one): every value reaching CbTrigger.url_filter is a non-empty "
+    "literal, a format! with a non-empty literal piece, or passes an is_empty() test that repairs or rejects."
 )
 NOT_DECIDED = "That the emitted pattern matches a superset of the URLs the original rule matches (value level)."
 
@@ -39,6 +41,7 @@ def check(run):
     run.guard("C20.4.ordering", cfg, lambda: rule_order(run, F, cfg))
     run.guard("C20.6.escaping", cfg, lambda: rule_escape(run, F, cfg))
     run.guard("C20.6.escaping", cfg + "/sinks", lambda: rule_escape_sinks(run, F, cfg))
+    run.guard("C20.7.url-filter-nonempty", cfg, lambda: rule_nonempty(run, F, cfg))
 
 
 def rule_writers(run, F, cfg):
@@ -261,3 +264,90 @@ def rule_escape_sinks(run, F, cfg):
            f"views of itself ({len(sinks)} uses); other consumers: {bad[:3]}", site=f.loc(0), config=cfg,
            detail="rule text that reaches a url-filter without SPECIAL_CHARS escaping can contain $ | { [ ( etc. "
                   "and produce a pattern outside Safari's regex subset")
+
+
+def _template_has_literal(tpl):
+    """rustc's compact format template: a length byte (1..0x7f) introduces a literal piece, 0xc0.. an
+    argument, 0x00 ends. `tpl` is the python-repr style b"..." text exported by the driver."""
+    try:
+        raw = eval(tpl)
+    except Exception:
+        return None
+    i = 0
+    while i < len(raw):
+        c = raw[i]
+        if c == 0:
+            return False
+        if c < 0x80:
+            return True
+        if c == 0xc0:
+            i += 1
+            continue
+        return None   # argument with a format spec etc.: not decoded
+    return False
+
+
+def rule_nonempty(run, F, cfg):
+    f = F.fn(NET)
+    run.touched(f)
+    aggs = []
+    for b, i, st in f.statements():
+        if st["k"] == "assign" and st["rv"]["k"] == "agg" and st["rv"].get("adt") == "content_blocking::CbTrigger":
+            for fname, op in zip(st["rv"]["fields"], st["rv"]["ops"]):
+                if fname == "url_filter":
+                    aggs.append((b, f.expr_operand(op)))
+    run.floor("C20.7.url-filter-nonempty", f"CbTrigger constructions in the network conversion [{cfg}]", len(aggs), 1)
+    # leaves of the value: string literals and format! calls
+    fmt_sites = {}
+    for b, t in f.calls(r"^std::fmt::Arguments::new$"):
+        tpl = f.expr_operand(t["args"][0])
+        fmt_sites.setdefault(tpl, []).append(b)
+    checks = [(b, t, f.expr_operand(t["args"][0])) for b, t in f.calls(r"^std::string::String::is_empty$|^core::str::is_empty$|^std::str::is_empty$")]
+    fixers = [(b, f.expr_operand(t["args"][0]), f.expr_operand(t["args"][1]))
+              for b, t in f.calls(r"^std::string::String::push_str$|^<std::string::String as std::ops::AddAssign<&str>>::add_assign$")]
+    n_leaves = 0
+    res = {}
+
+    def ob(rule, inst, ok, text, **kw):
+        prev = res.get(inst)
+        if prev is None or (prev[0] and not ok):
+            res[inst] = (ok, text, kw)
+
+    for ab, e in aggs:
+        lits = set(re.findall(r'(?<![\w)])"((?:[^"\\]|\\.)*)"', re.sub(r'b"(?:[^"\\]|\\.)*"', "", e)))
+        for lit in sorted(lits):
+            ob("C20.7.url-filter-nonempty", f"literal:{lit}", len(lit) > 0,
+                   f"url-filter literal \"{lit}\" is non-empty", site=f.loc(ab), config=cfg)
+        for tpl in sorted(set(re.findall(r'Arguments::new\((b"(?:[^"\\]|\\.)*")', e))):
+            has = _template_has_literal(tpl)
+            if has:
+                ob("C20.7.url-filter-nonempty", f"format:{tpl}", True,
+                       f"format template {tpl} has a non-empty literal piece", site=f.loc(ab), config=cfg)
+                continue
+            # possibly empty: every path from the format! to the CbTrigger passes an is_empty() test of this
+            # value whose `true` side cannot reach the CbTrigger without appending a non-empty literal
+            defs = fmt_sites.get(tpl, [])
+            good_checks = []
+            for cb, ct, ce in checks:
+                if tpl not in ce:
+                    continue
+                nxt = f.blocks[ct["t"]]["t"] if ct.get("t") is not None else None
+                if not nxt or nxt["k"] != "switch":
+                    continue
+                true_tgts = [tb for v, tb in nxt["targets"] if v != 0]
+                if nxt.get("otherwise") is not None:
+                    true_tgts.append(nxt["otherwise"])
+                fx = {b for b, fe, fl in fixers if fe == ce and re.match(r'^"(?:[^"\\]|\\.)+"$', fl)}
+                if true_tgts and all(ab not in f.reachable_from(tt, avoid=fx) and tt != ab for tt in true_tgts):
+                    good_checks.append(cb)
+            ok = bool(defs) and all(ab not in f.reachable_from(d, avoid=set(good_checks)) for d in defs)
+            ob("C20.7.url-filter-nonempty", f"format:{tpl}", ok,
+                   f"format template {tpl} has no literal piece, so the url-filter is empty when its arguments "
+                   f"are (e.g. rule `^$script`: pattern `^` with the trailing separator removed, both schemes); "
+                   f"it must pass an is_empty() test that appends a non-empty literal or rejects the rule before "
+                   f"CbTrigger is built (WebKit refuses a list with an empty url-filter)",
+                   site=f.loc(defs[0]) if defs else f.loc(ab), config=cfg,
+                   detail=f"format! at blocks {defs}; accepted is_empty checks at blocks {good_checks}")
+    for inst, (ok, text, kw) in sorted(res.items()):
+        run.ob("C20.7.url-filter-nonempty", inst, ok, text, **kw)
+    run.floor("C20.7.url-filter-nonempty", f"url-filter leaves [{cfg}]", len(res), 7)
